@@ -5,8 +5,6 @@ import (
 	"strconv"
 	"time"
 
-	"golang.org/x/exp/maps"
-
 	"github.com/tdakkota/docker-logql/internal/iterators"
 	"github.com/tdakkota/docker-logql/internal/lokiapi"
 	"github.com/tdakkota/docker-logql/internal/otelstorage"
@@ -75,8 +73,12 @@ func ReadStepResponse(iter iterators.Iterator[Step], instant bool) (s lokiapi.Qu
 		return s, err
 	}
 
+	result := make(lokiapi.Matrix, 0, len(matrixSeries))
+	for _, key := range sortedKeys(matrixSeries) {
+		result = append(result, matrixSeries[key])
+	}
 	s.SetMatrixResult(lokiapi.MatrixResult{
-		Result: maps.Values(matrixSeries),
+		Result: result,
 	})
 	return s, nil
 }
